@@ -45,8 +45,10 @@ def run(ctx):
     ]
     ctx.cov["refuted_lemmas"] = []
     proved = ctx.prove("C14", extracted=["ReplShape"])
-    if ctx.tier == "thorough" and proved:
+    proved2 = ctx.prove("C14Session", extracted=["ReplShape", "CallCacheConsts"])
+    if ctx.tier == "thorough" and proved and proved2:
         ctx.coqchk("C14")
+        ctx.coqchk("C14Session")
     ok, out = vlib.coq_make(["Base/CaseCheck.vo", "Model/GlobalsSync.vo"])
     if not ok:
         ctx.broken.append("coq: model files for the C14 tie do not build")
